@@ -54,13 +54,14 @@ class Spec:
     inject = True
 
     def __init__(self, ins, outs):
-        self.ins = {os.fspath(p) for p in ins}
-        self.outs = {os.fspath(norm_out(p)) for p in outs} | {os.fspath(p) for p in outs}
+        # a file has one identity however its name is spelled ('.', '..')
+        self.ins = {os.path.normpath(os.fspath(p)) for p in ins}
+        self.outs = {os.path.normpath(os.fspath(norm_out(p))) for p in outs} | {os.path.normpath(os.fspath(p)) for p in outs}
 
     def role(self, ctx, path):
         if isinstance(path, SObj):
             return self.role_sym(ctx, path)
-        s = os.fspath(path)
+        s = os.path.normpath(os.fspath(path))
         return (z3.BoolVal(s in self.ins), z3.BoolVal(s in self.outs), z3.BoolVal(s.endswith("~")))
 
     def role_sym(self, ctx, path):
@@ -247,6 +248,7 @@ CONFIGS = {
     "output is the input": ("/data/in.rtdc", "/data/in.rtdc", {}, True),
     "output becomes the input once the suffix is appended": ("/data/in.rtdc", "/data/in", {}, True),
     "temporary name is the input": ("/data/x.rtdc~", "/data/x.rtdc", {"check_suffix": False}, True),
+    "output is the input spelled with '..'": ("/data/in.rtdc", "/data/sub/../in.rtdc", {}, True),
 }
 
 
@@ -428,7 +430,7 @@ TRUSTED_BASE = ["EX-FX: Export.hdf5(path, override) removes an existing file onl
                 "P-RENAME (rename is atomic)", "H-OPEN (an HDF5 file is modified only through handles opened on its path)",
                 "a failing operation has no effect on files other than the one it targets"]
 ASSUMPTIONS = [
-    "path names are concrete representatives (plain, suffix appended, three aliasing cases); "
+    "path names are concrete representatives (plain, suffix appended, four aliasing cases); "
     "which files exist is symbolic",
     "at most one injected failure per run; after it the code's own exception handling is executed",
     "durability (fsync) and partial effects of a failing write inside the temporary file are not modelled: "
@@ -690,7 +692,8 @@ def _scenarios_for(unit_name):
                 "suffix appended to a dotted name": [base + ":nosuffix"],
                 "output is the input": [base + ":alias"],
                 "output becomes the input once the suffix is appended": [base + ":alias-nosuffix"],
-                "temporary name is the input": [base + ":alias-temp"]}[cfg]
+                "temporary name is the input": [base + ":alias-temp"],
+                "output is the input spelled with '..'": [base + ":alias-dotdot", base + ":alias-symlink"]}[cfg]
     if base == "join":
         return ["join:alias"] if "output is the last input" in unit_name else ["join"]
     if base == "split":
